@@ -181,8 +181,9 @@ pub fn check_key_po(ops: &[Rec], budget: u64, program_order: bool) -> Verdict {
     }
     let bit = |i: usize| 1u128 << i;
     let rets: Vec<u64> = ops.iter().map(|o| o.ret.as_ref().map(|r| r.0).unwrap_or(u64::MAX)).collect();
-    // index of the previous operation of the same client (ops are sorted by call stamp)
-    let prev: Vec<Option<usize>> = (0..n).map(|i| (0..i).rev().find(|&j| ops[j].client == ops[i].client)).collect();
+    // program order: everything the same client issued strictly earlier (elements of one batch call share a
+    // call stamp and are not ordered among themselves)
+    let before: Vec<u128> = (0..n).map(|i| (0..n).filter(|&j| ops[j].client == ops[i].client && ops[j].call < ops[i].call).fold(0u128, |m, j| m | bit(j))).collect();
     // candidates are tried in order of their return stamps: the effect point lies between call and
     // return, and for pipelined bursts (all calls at the start) the returns follow the real order
     let mut cand: Vec<usize> = (0..n).collect();
@@ -206,7 +207,7 @@ pub fn check_key_po(ops: &[Rec], budget: u64, program_order: bool) -> Verdict {
             if steps > budget {
                 return Verdict::Timeout;
             }
-            let po_ok = !program_order || prev[i].map(|j| mask & bit(j) != 0).unwrap_or(true);
+            let po_ok = !program_order || mask & before[i] == before[i];
             if mask & bit(i) == 0 && ops[i].call < min_ret && po_ok {
                 let (ns, res) = apply(&st, &ops[i].op);
                 let ok = match &ops[i].ret {
@@ -303,7 +304,7 @@ pub fn key_name(i: usize) -> String {
 
 const SWAP_SCRIPT: &str = "local v = redis.call('GET', KEYS[1]); redis.call('SET', KEYS[1], ARGV[1]); return v";
 
-async fn do_op(st: &ShardedActorState, key: &str, op: &OpKind, via: &Via) -> Tree {
+async fn do_op(st: &ShardedActorState, key: &str, op: &OpKind, via: &Via, sha: Option<&str>) -> Tree {
     let kb = Bytes::copy_from_slice(key.as_bytes());
     let r = match (op, via) {
         (OpKind::Get, Via::Fast) => st.fast_get(kb).await,
@@ -325,6 +326,8 @@ async fn do_op(st: &ShardedActorState, key: &str, op: &OpKind, via: &Via) -> Tre
                 OpKind::LPush(v) => Command::LPush(k, vec![SDS::new(v.clone())]),
                 OpKind::LPop => Command::LPop(k),
                 OpKind::LLen => Command::LLen(k),
+                // half of the script invocations go through EVALSHA (the script was loaded when the history began)
+                OpKind::EvalSwap(v) if sha.is_some() && v.len() % 2 == 0 => Command::EvalSha { sha1: sha.unwrap().to_string(), keys: vec![k], args: vec![SDS::new(v.clone())] },
                 OpKind::EvalSwap(v) => Command::Eval { script: SWAP_SCRIPT.to_string(), keys: vec![k], args: vec![SDS::new(v.clone())] },
                 OpKind::SetOptNx(v) | OpKind::SetOptXx(v) | OpKind::SetOptGet(v) => Command::Set {
                     key: k,
@@ -399,20 +402,19 @@ fn activity() -> u64 {
 /// of observable events, not the duration of any operation.
 async fn join_or_stuck(hs: Vec<tokio::task::JoinHandle<()>>, extra: &dyn Fn() -> u64) -> bool {
     let mut last = activity() + extra();
-    let mut quiet = 0u32;
+    let mut last_change = std::time::Instant::now();
+    let mut nap = 1u64;
     loop {
         if hs.iter().all(|h| h.is_finished()) {
             return false;
         }
-        tokio::time::sleep(std::time::Duration::from_millis(100)).await;
+        tokio::time::sleep(std::time::Duration::from_millis(nap)).await;
+        nap = (nap * 2).min(100);
         let now = activity() + extra();
         if now != last {
             last = now;
-            quiet = 0;
-        } else {
-            quiet += 1;
-        }
-        if quiet >= 80 {
+            last_change = std::time::Instant::now();
+        } else if last_change.elapsed().as_secs() >= 8 {
             for h in &hs {
                 h.abort();
             }
@@ -428,24 +430,69 @@ async fn run_history(cfg: &HistCfg, seed: u64) -> (Vec<Rec>, Vec<Rec>) {
     pc.response_pool.capacity = cfg.pool.max(1);
     pc.response_pool.prewarm = cfg.pool.min(pc.response_pool.capacity);
     let st = ShardedActorState::with_perf_config(&pc);
+    // the read-modify-write script is registered once, through the API, before the clients start
+    let sha: Option<String> = if cfg.lua {
+        match myresp::from_resp(&st.execute(&Command::ScriptLoad(SWAP_SCRIPT.to_string())).await) {
+            Tree::Bulk(Some(b)) => String::from_utf8(b).ok(),
+            _ => None,
+        }
+    } else {
+        None
+    };
     let log: Arc<Mutex<Vec<Rec>>> = Arc::new(Mutex::new(vec![]));
-    let pending: Arc<Mutex<HashMap<usize, Rec>>> = Arc::new(Mutex::new(HashMap::new()));
+    let pending: Arc<Mutex<HashMap<usize, Vec<Rec>>>> = Arc::new(Mutex::new(HashMap::new()));
     let mut hs = vec![];
     for c in 0..cfg.clients {
         let st = st.clone();
         let log = log.clone();
         let pending = pending.clone();
+        let sha = sha.clone();
         let (keys, n, cancel, lua) = (cfg.keys, cfg.ops_per_client, cfg.cancel, cfg.lua);
         hs.push(tokio::spawn(async move {
             let mut rng = rng_from(seed, c as u64 + 1);
             let mut ctr = 0u32;
             for _ in 0..n {
+                if keys > 1 && rng.gen_bool(0.1) {
+                    // a pipeline batch over several keys (with repeats) through the batch entry points: one call,
+                    // one reply vector; every element is an operation on its key with the call's stamps
+                    let m = rng.gen_range(2..=4);
+                    let ks: Vec<usize> = (0..m).map(|_| rng.gen_range(0..keys)).collect();
+                    let sets = rng.gen_bool(0.4);
+                    let ops: Vec<OpKind> = ks
+                        .iter()
+                        .map(|_| {
+                            if sets {
+                                ctr += 1;
+                                OpKind::Set(format!("c{}v{}", c, ctr).into_bytes())
+                            } else {
+                                OpKind::Get
+                            }
+                        })
+                        .collect();
+                    let call = stamp();
+                    pending.lock().unwrap().insert(c, ks.iter().zip(&ops).map(|(k, op)| Rec { client: c, key: *k, op: op.clone(), via: Via::Batch, call, ret: None }).collect());
+                    let replies: Vec<Tree> = if sets {
+                        let pairs = ks.iter().zip(&ops).map(|(k, op)| (Bytes::from(key_name(*k)), Bytes::copy_from_slice(match op { OpKind::Set(v) => v, _ => b"" }))).collect();
+                        st.fast_batch_set_pipeline(pairs).await.iter().map(myresp::from_resp).collect()
+                    } else {
+                        st.fast_batch_get_pipeline(ks.iter().map(|k| Bytes::from(key_name(*k))).collect()).await.iter().map(myresp::from_resp).collect()
+                    };
+                    let ret = stamp();
+                    pending.lock().unwrap().remove(&c);
+                    let mut l = log.lock().unwrap();
+                    for (i, (k, op)) in ks.iter().zip(&ops).enumerate() {
+                        // a missing element of the reply vector is recorded as a protocol-level error reply
+                        let r = replies.get(i).cloned().unwrap_or(Tree::Error(b"MISSING-BATCH-ELEMENT".to_vec()));
+                        l.push(Rec { client: c, key: *k, op: op.clone(), via: Via::Batch, call, ret: Some((ret, r)) });
+                    }
+                    continue;
+                }
                 let key = rng.gen_range(0..keys);
                 let kname = key_name(key);
                 let (op, via) = gen_op(&mut rng, c, &mut ctr, key, lua);
                 let call = stamp();
-                pending.lock().unwrap().insert(c, Rec { client: c, key, op: op.clone(), via: via.clone(), call, ret: None });
-                let fut = do_op(&st, &kname, &op, &via);
+                pending.lock().unwrap().insert(c, vec![Rec { client: c, key, op: op.clone(), via: via.clone(), call, ret: None }]);
+                let fut = do_op(&st, &kname, &op, &via, sha.as_deref());
                 let res = if cancel && rng.gen_bool(0.08) {
                     // abandon the call after a few scheduler turns: it may or may not take effect
                     let turns = rng.gen_range(0..3);
@@ -470,9 +517,11 @@ async fn run_history(cfg: &HistCfg, seed: u64) -> (Vec<Rec>, Vec<Rec>) {
     let mut v = log.lock().unwrap().clone();
     let mut lost = vec![];
     if stuck {
-        for (_, r) in pending.lock().unwrap().drain() {
-            lost.push(r.clone());
-            v.push(r);
+        for (_, rs) in pending.lock().unwrap().drain() {
+            for r in rs {
+                lost.push(r.clone());
+                v.push(r);
+            }
         }
     }
     (v, lost)
